@@ -12,17 +12,20 @@ import (
 // is recorded per key (what TSMReader's tombstoner + index do is C08)
 type verifMTSM struct {
 	TSMFile
-	keys  []string
-	ts    map[string][]int64
-	tombs map[string][]TimeRange
-	refs  int
+	keys        []string // keys currently listed by the index
+	all         []string // keys written to the file
+	ts          map[string][]int64
+	tombs       map[string][]TimeRange
+	gone        []string // keys removed because a delete covered all of their points
+	dropCovered bool
+	refs        int
 }
 
 func (f *verifMTSM) Ref()   { f.refs++ }
 func (f *verifMTSM) Unref() { f.refs-- }
 func (f *verifMTSM) TimeRange() (int64, int64) {
 	lo, hi := int64(math.MaxInt64), int64(math.MinInt64)
-	for _, k := range f.keys {
+	for _, k := range f.all {
 		t := f.ts[k]
 		lo = vrt.Ite(t[0] < lo, t[0], lo)
 		hi = vrt.Ite(t[len(t)-1] > hi, t[len(t)-1], hi)
@@ -34,10 +37,16 @@ func (f *verifMTSM) OverlapsTimeRange(min, max int64) bool {
 	return lo <= max && hi >= min
 }
 func (f *verifMTSM) KeyRange() ([]byte, []byte) {
+	if len(f.keys) == 0 {
+		return nil, nil
+	}
 	return []byte(f.keys[0]), []byte(f.keys[len(f.keys)-1])
 }
 func (f *verifMTSM) KeyCount() int { return len(f.keys) }
 func (f *verifMTSM) Seek(key []byte) int {
+	if len(f.keys) == 0 {
+		return 0
+	}
 	for i, k := range f.keys {
 		if k >= string(key) {
 			return i
@@ -46,7 +55,9 @@ func (f *verifMTSM) Seek(key []byte) int {
 	return len(f.keys) - 1 // the indirect index never returns KeyCount
 }
 func (f *verifMTSM) KeyAt(i int) ([]byte, byte) { return []byte(f.keys[i]), BlockInteger }
-func (f *verifMTSM) BatchDelete() BatchDeleter  { return &verifMBatch{f: f, pending: map[string][]TimeRange{}} }
+func (f *verifMTSM) BatchDelete() BatchDeleter {
+	return &verifMBatch{f: f, pending: map[string][]TimeRange{}}
+}
 
 type verifMBatch struct {
 	f       *verifMTSM
@@ -62,6 +73,24 @@ func (b *verifMBatch) DeleteRange(keys [][]byte, min, max int64) error {
 func (b *verifMBatch) Commit() error {
 	for k, v := range b.pending {
 		b.f.tombs[k] = append(b.f.tombs[k], v...)
+		// like the real index, a key whose every point is covered disappears from the file
+		t := b.f.ts[k]
+		if !b.f.dropCovered {
+			continue
+		}
+		for _, tr := range v {
+			if tr.Min <= t[0] && t[len(t)-1] <= tr.Max {
+				var keep []string
+				for _, x := range b.f.keys {
+					if x != k {
+						keep = append(keep, x)
+					}
+				}
+				b.f.keys = keep
+				b.f.gone = append(b.f.gone, k)
+				break
+			}
+		}
 	}
 	return nil
 }
@@ -84,42 +113,57 @@ func VerifC17_DeleteBatch() {
 		vrt.Assume(t > -4611686018427387904)
 		vrt.Assume(t < 4611686018427387904)
 	}
-	f := &verifMTSM{ts: map[string][]int64{}, tombs: map[string][]TimeRange{}}
-	inFile := map[string]bool{}
-	for si, s := range verifSeriesPool {
-		// which series the file holds (at least the last one, so the file is never empty)
-		if si < len(verifSeriesPool)-1 && vrt.Choose("in_file_"+s, 0, 1) == 0 {
-			continue
-		}
-		inFile[s] = true
-		fields := []string{"v"}
-		if s == "cpu,host=a" {
-			fields = []string{"v", "w"}
-		}
-		for _, fld := range fields {
-			k := s + "#!~#" + fld
-			f.keys = append(f.keys, k)
-			for i := 0; i < P; i++ {
-				t := vrt.Int64(vrt.N("ft_"+k, i))
-				bound(t)
-				if i > 0 {
-					vrt.Assume(f.ts[k][i-1] < t)
+	FILES := vrt.Bound("FILES", 1)
+	var files []*verifMTSM
+	var tsmFiles []TSMFile
+	for fi := 0; fi < FILES; fi++ {
+		f := &verifMTSM{ts: map[string][]int64{}, tombs: map[string][]TimeRange{}, dropCovered: FILES > 1}
+		for si, s := range verifSeriesPool {
+			// which series the file holds (at least the last one, so the file is never empty); with
+			// two files: the older file holds only the first series, the newer one all of them
+			if FILES == 1 && si < len(verifSeriesPool)-1 && vrt.Choose(vrt.N("in_file_"+s, fi), 0, 1) == 0 {
+				continue
+			}
+			if FILES > 1 && fi == 0 && si > 0 {
+				continue
+			}
+			fields := []string{"v"}
+			if s == "cpu,host=a" && fi == 0 {
+				fields = []string{"v", "w"}
+			}
+			for _, fld := range fields {
+				k := s + "#!~#" + fld
+				f.keys = append(f.keys, k)
+				for i := 0; i < P; i++ {
+					t := vrt.Int64(vrt.N("ft_"+k, fi, i))
+					bound(t)
+					if i > 0 {
+						vrt.Assume(f.ts[k][i-1] < t)
+					}
+					f.ts[k] = append(f.ts[k], t)
 				}
-				f.ts[k] = append(f.ts[k], t)
 			}
 		}
+		sort.Strings(f.keys) // TSM index order
+		f.all = append([]string(nil), f.keys...)
+		files = append(files, f)
+		tsmFiles = append(tsmFiles, f)
 	}
-	sort.Strings(f.keys) // TSM index order
-	e := &Engine{Cache: verifNewCache(0), FileStore: &FileStore{files: []TSMFile{f}}}
+	e := &Engine{Cache: verifNewCache(0), FileStore: &FileStore{files: tsmFiles}}
 	cacheTs := map[string]int64{}
+	keep := map[string]bool{}
 	for _, s := range verifSeriesPool {
 		k := s + "#!~#v"
 		t := vrt.Int64("ct_" + k)
 		bound(t)
 		cacheTs[k] = t
-		// a second point beyond the delete domain keeps the series alive in the cache, so the index
-		// reconciliation never considers dropping the series (that branch needs a series file)
-		vrt.Assert(e.Cache.WriteMulti(map[string][]Value{k: {NewIntegerValue(t, 7), NewIntegerValue(4611686018427387904+5, 8)}}) == nil, "cache write")
+		// optionally a second point beyond the delete domain keeps the series alive in the cache
+		keep[s] = FILES == 1 || vrt.Choose("cache_keepalive_"+s, 0, 1) == 1
+		vals := []Value{NewIntegerValue(t, 7)}
+		if keep[s] {
+			vals = append(vals, NewIntegerValue(4611686018427387904+5, 8))
+		}
+		vrt.Assert(e.Cache.WriteMulti(map[string][]Value{k: vals}) == nil, "cache write")
 	}
 
 	// the matched series, in the order the series iterator yields them
@@ -146,34 +190,61 @@ func VerifC17_DeleteBatch() {
 	vrt.Assume(min <= max)
 	bound(min) // influxql.MinTime/MaxTime are widened to the int64 limits by deleteSeriesRange
 	bound(max)
+	// Every matched series keeps some data (a file point or cache point outside the range): the index
+	// reconciliation must then leave it alone. (Dropping a series that really has nothing left goes
+	// through the series file, which this harness does not have: reaching that branch panics.)
+	for s := range matched {
+		survives := keep[s]
+		if ct, ok := cacheTs[s+"#!~#v"]; ok {
+			survives = vrt.Or(survives, vrt.Not(vrt.And(min <= ct, ct <= max)))
+		}
+		for _, f := range files {
+			for _, k := range f.all {
+				if k[:len(k)-len("#!~#v")] == s {
+					t := f.ts[k]
+					survives = vrt.Or(survives, vrt.Not(vrt.And(min <= t[0], t[len(t)-1] <= max)))
+				}
+			}
+		}
+		vrt.Assume(survives)
+	}
 	err := e.deleteSeriesRange(context.Background(), batch, min, max)
 	vrt.Assert(err == nil, "delete returns success")
 
-	overlaps := f.OverlapsTimeRange(min, max)
-	for _, k := range f.keys {
-		series := k[:len(k)-len("#!~#v")]
-		covered := false
-		for _, tr := range f.tombs[k] {
-			covered = vrt.Or(covered, vrt.And(tr.Min == min, tr.Max == max))
-			vrt.Assert(vrt.And(tr.Min == min, tr.Max == max), "a recorded tombstone has the requested range")
+	for _, f := range files {
+		overlaps := f.OverlapsTimeRange(min, max)
+		for _, k := range f.all {
+			series := k[:len(k)-len("#!~#v")]
+			covered := false
+			for _, tr := range f.tombs[k] {
+				covered = vrt.Or(covered, vrt.And(tr.Min == min, tr.Max == max))
+				vrt.Assert(vrt.And(tr.Min == min, tr.Max == max), "a recorded tombstone has the requested range")
+			}
+			if matched[series] {
+				vrt.Assert(vrt.Implies(overlaps, covered), "every key of a matched series is tombstoned over the range in a file the range overlaps")
+			} else {
+				vrt.Assert(len(f.tombs[k]) == 0, "keys of other series get no tombstone")
+			}
 		}
-		if matched[series] {
-			vrt.Assert(vrt.Implies(overlaps, covered), "every key of a matched series is tombstoned over the range in a file the range overlaps")
-		} else {
-			vrt.Assert(len(f.tombs[k]) == 0, "keys of other series get no tombstone")
-		}
+		vrt.Assert(f.refs == 0, "file references released")
 	}
 	for k, t := range cacheTs {
 		series := k[:len(k)-len("#!~#v")]
 		vals := e.Cache.Values([]byte(k))
 		inRange := vrt.And(min <= t, t <= max)
+		want := 1
+		if keep[series] {
+			want = 2
+		}
 		if matched[series] {
-			vrt.Assert(vrt.Iff(len(vals) == 1, inRange), "cache: a matched series loses exactly its points inside the range")
-			vrt.Assert(len(vals) >= 1 && len(vals) <= 2, "cache: the point outside the range stays")
+			vrt.Assert(vrt.Iff(len(vals) == want-1, inRange), "cache: a matched series loses exactly its points inside the range")
+			vrt.Assert(len(vals) >= want-1 && len(vals) <= want, "cache: the point outside the range stays")
 		} else {
-			vrt.Assert(len(vals) == 2, "cache: other series are untouched")
+			vrt.Assert(len(vals) == want, "cache: other series are untouched")
 		}
 	}
-	vrt.Assert(f.refs == 0, "file references released")
 	vrt.Reach("end")
 }
+
+// VerifC17_DeleteBatchTwoFiles: the same with two TSM files (separate entry name for bounds/evidence).
+func VerifC17_DeleteBatchTwoFiles() { VerifC17_DeleteBatch() }
